@@ -25,6 +25,38 @@ def in_box(res, his):
     xs = res.tolist()
     return z3.And(*[z3.And(toz3(x) >= 0, toz3(x) <= h) for x, h in zip(xs, his)])
 
+
+# ------------------------------------------------------------------ rewards that are affine in the cost coefficients
+def _mentions(t, vs):
+    if z3.is_const(t): return any(z3.eq(t, v) for v in vs)
+    return any(_mentions(ch, vs) for ch in t.children())
+def affine_in(t, vs):
+    """syntactic check: t is an affine expression of the variables vs (they occur only as factors of products / summands)"""
+    t = toz3(t)
+    if not _mentions(t, vs): return True
+    if z3.is_const(t): return True
+    k = t.decl().kind()
+    if k in (z3.Z3_OP_ADD, z3.Z3_OP_SUB, z3.Z3_OP_UMINUS, z3.Z3_OP_TO_REAL): return all(affine_in(ch, vs) for ch in t.children())
+    if k == z3.Z3_OP_MUL:
+        dep = [ch for ch in t.children() if _mentions(ch, vs)]
+        return len(dep) == 1 and affine_in(dep[0], vs)
+    if k == z3.Z3_OP_ITE:
+        c, a, b = t.children(); return (not _mentions(c, vs)) and affine_in(a, vs) and affine_in(b, vs)
+    return False
+def reward_clauses(costs_of, result_of, spec_of):
+    """Two affine functions of the cost vector are equal iff they agree at 0 and at every unit vector.
+    Clauses: `reward_affine_in_costs` (syntactic, both sides) and one integer-only comparison per coefficient."""
+    def at(c, j):
+        cs = costs_of(c); sub = [(x, z3.RealVal(1 if i == j else 0)) for i, x in enumerate(cs)]
+        return z3.substitute(toz3(result_of(c)), *sub) == z3.substitute(toz3(spec_of(c)), *sub)
+    out = {"reward_affine_in_costs": lambda c, q: z3.BoolVal(affine_in(result_of(c), costs_of(c)) and affine_in(spec_of(c), costs_of(c))),
+           "reward_at_zero_costs": lambda c, q: at(c, -1)}
+    return out, at
+def add_reward_clauses(ens, n, costs_of, result_of, spec_of):
+    base, at = reward_clauses(costs_of, result_of, spec_of); ens.update(base)
+    for j in range(n): ens[f"reward_coefficient_{j}"] = (lambda c, q, j=j: at(c, j))
+    return ens
+
 # ------------------------------------------------------------------ De Moor
 DM = "mdpax.problems.perishable_inventory.de_moor_single_product.DeMoorSingleProductPerishable"
 def setup_dm(m, L, pol):
@@ -49,10 +81,10 @@ def dm_spec(c):
     return nxt, rew, stock, after, rem
 contract(f"{DM}.transition",
     scenarios=[(f"m{m}L{L}{pol}.", setup_dm(m, L, pol)) for m, L, pol in itertools.product(range(1, 6), range(1, 5), ("fifo", "lifo"))],
-    ensures={"next_state": lambda c, q: vec_eq(c.result[0], dm_spec(c)[0]),
-             "reward": lambda c, q: toz3(c.result[1]) == dm_spec(c)[1],
+    ensures=add_reward_clauses({"next_state": lambda c, q: vec_eq(c.result[0], dm_spec(c)[0]),
              "closed": lambda c, q: in_box(c.result[0], [c.Qm] * (c.m + c.L - 1)),
-             "conservation": lambda c, q: (lambda nxt, rew, stock, after, rem: ssum(stock) == Min(ssum(stock), c.d) + after[-1] + ssum(after[:-1]))(*dm_spec(c))})
+             "conservation": lambda c, q: (lambda nxt, rew, stock, after, rem: ssum(stock) == Min(ssum(stock), c.d) + after[-1] + ssum(after[:-1]))(*dm_spec(c))},
+        4, lambda c: c.costs, lambda c: c.result[1], lambda c: dm_spec(c)[1]))
 
 # ------------------------------------------------------------------ Hendrix
 HX = "mdpax.problems.perishable_inventory.hendrix_two_product.HendrixTwoProductPerishable"
@@ -73,9 +105,9 @@ def hx_spec(c):
     aa, _ = spec_issue(c.sa, c.ia, True); bb, _ = spec_issue(c.sb, c.ib, True)
     return [c.qa] + aa[:-1] + [c.qb] + bb[:-1], c.prices[0] * c.ia + c.prices[1] * c.ib - c.costs[0] * c.qa - c.costs[1] * c.qb
 contract(f"{HX}.transition", scenarios=[(f"m{m}.", setup_hx(m)) for m in range(1, 6)],
-    ensures={"next_state": lambda c, q: vec_eq(c.result[0], hx_spec(c)[0]),
-             "reward": lambda c, q: toz3(c.result[1]) == hx_spec(c)[1],
-             "closed": lambda c, q: in_box(c.result[0], [c.Qa] * c.m + [c.Qb] * c.m)})
+    ensures=add_reward_clauses({"next_state": lambda c, q: vec_eq(c.result[0], hx_spec(c)[0]),
+             "closed": lambda c, q: in_box(c.result[0], [c.Qa] * c.m + [c.Qb] * c.m)},
+        4, lambda c: list(c.costs) + list(c.prices), lambda c: c.result[1], lambda c: hx_spec(c)[1]))
 
 # ------------------------------------------------------------------ Mirjalili
 MJ = "mdpax.problems.perishable_inventory.mirjalili_platelet.MirjaliliPlateletPerishable"
@@ -98,9 +130,9 @@ def mj_spec(c):
     cost = c.costs[0] * c.q + c.costs[1] * z3.If(c.q > 0, 1, 0) + c.costs[2] * rem + c.costs[3] * after[-1] + c.costs[4] * ssum(after)
     return [(c.wd + 1) % 7] + after[:-1], -cost
 contract(f"{MJ}.transition", scenarios=[(f"m{m}.", setup_mj(m)) for m in range(1, 6)],
-    ensures={"next_state": lambda c, q: vec_eq(c.result[0], mj_spec(c)[0]),
-             "reward": lambda c, q: toz3(c.result[1]) == mj_spec(c)[1],
-             "closed": lambda c, q: in_box(c.result[0], [6] + [c.Qm] * (c.m - 1))})
+    ensures=add_reward_clauses({"next_state": lambda c, q: vec_eq(c.result[0], mj_spec(c)[0]),
+             "closed": lambda c, q: in_box(c.result[0], [6] + [c.Qm] * (c.m - 1))},
+        5, lambda c: c.costs, lambda c: c.result[1], lambda c: mj_spec(c)[1]))
 
 # ------------------------------------------------------------------ Forest
 FO = "mdpax.problems.forest.Forest"
